@@ -338,9 +338,16 @@ async def drive_ws(init: dict, ops: List[dict], cfg: Optional[dict] = None) -> T
         setattr(config, k, v)
     config._log = RecLog(sink)  # type: ignore
     tg = FakeTaskGroup(puts, sink)
+    lost = {"armed": False, "fired": False}
 
     async def send(ev):
         sink.append(ev)
+        if lost["armed"] and isinstance(ev, Data):
+            # the write of this frame fails (the peer is gone): the protocols re-enter with Closed(), i.e. the stream is
+            # handed StreamClosed *inside* the await of its own send
+            lost["armed"] = False
+            lost["fired"] = True
+            await stream.handle(StreamClosed(stream_id=1))
 
     tap = WsTap()
     tap.install()
@@ -374,7 +381,9 @@ async def drive_ws(init: dict, ops: List[dict], cfg: Optional[dict] = None) -> T
                 if "send" in op:
                     await stream.app_send(op["send"])
                 elif op["in"] == "data":
+                    lost["armed"] = bool(op.get("echo_lost"))
                     await stream.handle(Data(stream_id=1, data=op["data"]))
+                    lost["armed"] = False
                 else:
                     await stream.handle(StreamClosed(stream_id=1))
             except Exception as e:
@@ -403,7 +412,7 @@ def ws_model_req(init: dict, ops: List[dict], lib: dict, cfg: Optional[dict] = N
         if "send" in op:
             jops.append({"send": ws_msg_json(op["send"])})
         elif op["in"] == "data":
-            jops.append({"in": "data", "events": yielded})
+            jops.append({"in": "dataEchoLost" if op.get("echo_lost") else "data", "events": yielded})
         else:
             jops.append({"in": "streamClosed"})
     names = c.get("server_names", [])
